@@ -146,7 +146,10 @@ LINE = st.sampled_from(['a', 'b', 'c', '', 'x y', ' a', 'a ', 'é\U0001f600', '#
                         # lines that differ only by a lone surrogate / a combining mark / case
                         'a\ud83d', '\ud83d', '\udc00a', 'smile \ud83d', 'smile ', 'e\u0301', '\u00e9', 'A', 'ａ',
                         # words a script-level table keyed by line text might use for its own bookkeeping
-                        'count', 'length', 'lines', 'type', 'null', 'true', '0', '1', 'Identical', 'ix'])
+                        'count', 'length', 'lines', 'type', 'null', 'true', '0', '1', 'Identical', 'ix',
+                        # characters an implementation might reserve for itself: noncharacters as whole lines (a sentinel), a byte-order mark, NUL, DEL, separators
+                        '\uffff', '\ufffe', '\ufeff', '\ufeffa', 'a\ufeff', '\ufeffalpha', 'alpha', '\x00', '\x7f', '\ufffd', '\U0010ffff', '\u2028', '\x1f', '\x1e',
+                        '\ufdd0', '\x01', '\uffff\uffff', '\ue000'])
 
 
 @st.composite
